@@ -188,6 +188,18 @@ def check_growth(eng, res, G: Growth):
     step_n = cfg.node_of(step_call)
     carried = step_call.args[0].id
     exits = loop_exits(cfg, loop)
+    # a flag-driven loop (`flag = True` … `while flag:` / `done = False` … `while not done:`) is entered unconditionally: the
+    # first evaluation of its test is true whenever every definition of the flag that reaches the loop from outside is a
+    # constant of the right truth value; its test can then only fail after a full round
+    first_true = False
+    t0, pol0 = loop.test, True
+    while isinstance(t0, ast.UnaryOp) and isinstance(t0.op, ast.Not):
+        t0, pol0 = t0.operand, not pol0
+    if isinstance(t0, ast.Name) and flow.is_local(t0.id):
+        outside = [d for d in flow.reaching(t0.id, head) if d.stmt is None or not within(d.stmt, loop)]
+        first_true = bool(outside) and all(d.kind == "assign" and isinstance(d.value, ast.Constant) and bool(d.value.value) is pol0 for d in outside)
+    f_edges = {(head, b, l) for b, l in cfg.succ[head] if l == "F"} if first_true else set()
+    body_starts = [b for b, l in cfg.succ[head] if l == "T"]
     for nid, kind, node in exits:
         ok = cfg.must_pass(step_n, nid) if kind != "test" else False
         if kind == "test":
@@ -197,6 +209,8 @@ def check_growth(eng, res, G: Growth):
             # unless the F edge can only be taken after a step: head reachable only... (while cond) is entered from outside first
             r = cfg.reachable([cfg.entry], avoid_nodes={step_n})
             ok = head not in r
+            if not ok and first_true:
+                ok = head not in cfg.reachable(body_starts, avoid_nodes={step_n})
         else:
             why = "an exit of the growth loop can be taken before any unit was added"
         res.ob(rule, fi, f"exit:{kind}:{_exit_key(flow, cfg, node)}", "the growth step dominates every exit of the growth loop (at least one unit)", node, ok, why)
@@ -204,6 +218,8 @@ def check_growth(eng, res, G: Growth):
     for r in own_nodes(fi.node):
         if isinstance(r, ast.Return):
             ok = cfg.must_pass(step_n, cfg.node_of(r))
+            if not ok and first_true:
+                ok = cfg.node_of(r) not in cfg.reachable([cfg.entry], avoid_nodes={step_n}, avoid_edges=f_edges)
             res.ob(rule, fi, f"return:{'in-loop' if cfg.enclosing_loops(r) else 'after-loop' if head in cfg.reachable([cfg.entry], avoid_nodes=set()) and cfg.must_pass(head, cfg.node_of(r)) else 'before-loop'}",
                    "no return of the growth function can be reached without a growth step (no early exit that adds zero units)", r, ok,
                    "a return is reachable before any unit was added")
